@@ -29,7 +29,7 @@ def build(H, tier, seed):
     # MultiVector side of the simulation; __rtruediv__ is left to C16: inside C11's grammar its left operand is a plain number,
     # for which inverse(x) * number and number * inverse(x) coincide, so its operand order is not C11's clause
     from contracts.multivector_c import BINARY, UNARY
-    M.vc_mv_delegations(H, methods_binary=[m for m in BINARY if m != '__rtruediv__'], methods_unary=list(UNARY))
+    M.vc_mv_delegations(H, methods_binary=[m for m in BINARY if m != '__rtruediv__'], methods_unary=list(UNARY), scalar_left=True)
 
 
 def standins(tier, seed):
